@@ -941,17 +941,17 @@ bundled_cases = st.fixed_dictionaries({"file": st.integers(0, len(BUNDLED) - 1),
 
 
 CLAUSES = [
-    Clause("fk_fully_specified", c_generated, urdfs(rpy_pool="special"), 260, 24000,
+    Clause("fk_fully_specified", c_generated, urdfs(rpy_pool="special"), 260, 18000,
            region=near_pi_axis_region, shrink_quick=False,
            doc="every optional written; rpy incl. decimal truncations of pi and NearZero-band values"),
-    Clause("optionals_take_defaults", c_generated, urdfs(omit="maybe"), 260, 24000, shrink_quick=False,
+    Clause("optionals_take_defaults", c_generated, urdfs(omit="maybe"), 260, 18000, shrink_quick=False,
            doc="each of <origin>, xyz, rpy, <axis> independently omitted (>=1 omitted by construction)"),
-    Clause("limit_spellings", c_generated, urdfs(spellings=True, max_moving=5, max_fixed=2), 160, 12000, shrink_quick=False,
+    Clause("limit_spellings", c_generated, urdfs(spellings=True, max_moving=5, max_fixed=2), 160, 10000, shrink_quick=False,
            doc="limits not containing zero / degenerate / wide; continuous: no <limit>, effort+velocity only, bounds"),
-    Clause("file_layout", c_generated, urdfs(layout="rich"), 180, 16000, region=near_pi_axis_region, shrink_quick=False,
+    Clause("file_layout", c_generated, urdfs(layout="rich"), 180, 12000, region=near_pi_axis_region, shrink_quick=False,
            doc="shuffled order, world root, inertials, visuals, distractors, number formats, name styles"),
     Clause("everything_combined", c_generated,
-           urdfs(rpy_pool="special", omit="maybe", spellings=True, layout="rich"), 200, 24000,
+           urdfs(rpy_pool="special", omit="maybe", spellings=True, layout="rich"), 200, 18000,
            region=near_pi_axis_region, shrink_quick=False),
     Clause("bundled_files", c_bundled, bundled_cases, 120, 4000),
 ]
